@@ -310,6 +310,9 @@ func (m *RuleManager) tryCommitPatch(patch *ruleConfigPatch) error {
 
 	ruleList, err := buildRuleList(patch)
 	if err != nil {
+		// patch.adjust() pointed the existing rules at the group configs of the
+		// rejected patch, point them back at the committed ones.
+		m.ruleConfig.adjust()
 		return err
 	}
 
@@ -318,6 +321,7 @@ func (m *RuleManager) tryCommitPatch(patch *ruleConfigPatch) error {
 	// save updates
 	err = m.savePatch(patch.mut)
 	if err != nil {
+		m.ruleConfig.adjust()
 		return err
 	}
 
